@@ -11,7 +11,8 @@ RULE = ("public keys: scalars of the boundary alphabet, points lifted from x wit
         "plus compressed/uncompressed P2PKH/P2WPKH through PublicKey.address; script builders and address helpers over 20/32-byte "
         "hash alphabets; RIPEMD-160 and HASH160 for ALL input lengths 0..1024 x 4 byte patterns. Oracle: independent Base58Check / "
         "Bech32 decoders give (version | hrp, witness version, program); expected hashes from OpenSSL RIPEMD-160 / hashlib SHA-256 "
-        "over hand-assembled script templates. non-trivial = decoded and compared; distinct by construction")
+        "over hand-assembled script templates. non-trivial = decoded and compared; distinct by construction"
+        "; intermediate-corner classes (vf/corners.py) for x, HASH160, witness-script hash, nested script hashes and the four Base58 checksums; key objects parsed from either SEC form crossed with the requested form")
 
 
 def expected(kind, pt, testnet, compressed=True):
